@@ -299,10 +299,23 @@ def run(ctx, rep):
         defs = fl.defs.get(flag, [])
         dtxt = " ".join(ast.unparse(d) for d in defs)
         cons2 = construct_of(cfs, "implicit-flag")
-        if "starts_with_prepare" in dtxt and "not" in dtxt and ("len(" in dtxt or "not statements" in dtxt):
-            rep.ok("C17.5", cons2, f"`{flag} = {dtxt[:80]}`", f"{cfs.path}:{first.lineno}")
+        # second idiom: the answer of the first statement that has one (an empty block has none)
+        #   for stmt in statements: first = stmt.starts_with_prepare(..); if first is not None: break
+        #   flag = not first
+        first_decided = False
+        if len(defs) == 1 and isinstance(defs[0], ast.UnaryOp) and isinstance(defs[0].op, ast.Not) and isinstance(defs[0].operand, ast.Name):
+            v = defs[0].operand.id
+            for lp in iter_stmts(cfs.body):
+                if isinstance(lp, ast.For) and any(isinstance(a, ast.Assign) and any(isinstance(t_, ast.Name) and t_.id == v for t_ in a.targets) and "starts_with_prepare" in ast.unparse(a.value) for a in lp.body):
+                    brk = [i for i in lp.body if isinstance(i, ast.If) and any(isinstance(b_, ast.Break) for b_ in i.body)]
+                    if brk and isinstance(brk[0].test, ast.Compare) and isinstance(brk[0].test.ops[0], ast.IsNot) and v in ast.unparse(brk[0].test.left):
+                        first_decided = True
+        if "starts_with_prepare" in dtxt and "not" in dtxt and ("len(" in dtxt or "not statements" in dtxt) and "any(" not in dtxt and "all(" not in dtxt:
+            rep.violation("C17.5", cons2, f"`{flag} = {dtxt[:80]}` lets statements[0] decide even when it is an empty block: `with Q.loop(2): pass` followed by subcircuits is wrapped in a second prepare_all/measure_all and cannot run, while the same program as text does", f"{cfs.path}:{first.lineno}", witness="with Q.loop(2): pass; with Q.subcircuit(): ...")
+        elif first_decided:
+            rep.ok("C17.5", cons2, f"`{flag} = {dtxt[:60]}`: the answer of the first statement that is not an empty block", f"{cfs.path}:{first.lineno}")
         else:
-            rep.violation("C17.5", cons2, f"the flag `{flag}` is not `empty body or not statements[0].starts_with_prepare(...)`", f"{cfs.path}:{first.lineno}")
+            rep.violation("C17.5", cons2, f"the flag `{flag}` is not `empty body or not <first statement>.starts_with_prepare(...)`: the body is wrapped (or not) according to something else than what it begins with", f"{cfs.path}:{first.lineno}")
     else:
         rep.violation("C17.5", cons, "the implicit prepare and measure are not guarded by one and the same flag around the statement loop: one can be added without the other", cfs.loc())
     for c in ix.classes.values():
@@ -317,7 +330,18 @@ def run(ctx, rep):
             else:
                 rep.violation("C17.5", cons, "a subcircuit block must report that it starts with a prepare (otherwise it is wrapped in a second prepare/measure pair)", fi.loc())
         elif c.name == "QBlock":
-            delegates = any(isinstance(r.value, (ast.BoolOp, ast.Call)) and any(isinstance(m, ast.Call) and isinstance(m.func, ast.Attribute) and m.func.attr == "starts_with_prepare" and isinstance(m.func.value, ast.Subscript) for m in ast.walk(r.value)) for r in rets)
+            first_only = any(isinstance(r.value, (ast.BoolOp, ast.Call)) and any(isinstance(m, ast.Call) and isinstance(m.func, ast.Attribute) and m.func.attr == "starts_with_prepare" and isinstance(m.func.value, ast.Subscript) for m in ast.walk(r.value)) for r in rets)
+            delegates = False
+            if first_only:
+                rep.violation("C17.5", cons, "QBlock.starts_with_prepare asks its first statement only and answers False for an empty block: a leading empty loop or block decides that the body does not begin with a prepare", fi.loc())
+                continue
+            # the first answer: the first answer that is not None, walking the statements in order
+            for lp in iter_stmts(fi.body):
+                if isinstance(lp, ast.For) and "statements" in ast.unparse(lp.iter) and not any(isinstance(m, ast.Call) and isinstance(m.func, ast.Name) and m.func.id in ("reversed", "sorted") for m in ast.walk(lp.iter)):
+                    asg = [a for a in lp.body if isinstance(a, ast.Assign) and "starts_with_prepare" in ast.unparse(a.value)]
+                    ret_in = [i for i in lp.body if isinstance(i, ast.If) and isinstance(i.test, ast.Compare) and isinstance(i.test.ops[0], ast.IsNot) and any(isinstance(r_, ast.Return) for r_ in i.body)]
+                    if asg and ret_in:
+                        delegates = True
             if delegates:
                 rep.ok("C17.5", cons, "a block starts with a prepare iff its first statement does (recursively)", fi.loc())
             else:
